@@ -16,7 +16,7 @@ import ast
 from ..model import (walk, dotted, call_name, kwarg, unparse, short, UNKNOWN,
                      root_name, AnalysisError, calls_in, stores_in_target)
 from ..cfg import cfg_of
-from ..flow import guards, must_pass, loop_slice
+from ..flow import guards, must_pass, loop_slice, Exploration
 from .. import idioms as I
 
 UNK = UNKNOWN
@@ -1389,6 +1389,274 @@ def r14_4_5(prog, rep, defs):
               'runs')
 
 
+
+# ------------------------------------------------------------------------------
+# R14.6  every pilot notification of a batch is applied
+#
+def valueless(f):
+    """f has no `return <value>` on any path and is not a generator; trivial
+    bodies (pass / raise / docstring: hooks meant to be overridden) do not
+    count"""
+    real = [s for s in f.node.body
+            if not (isinstance(s, ast.Expr) and
+                    isinstance(s.value, ast.Constant))]
+    if not real or all(isinstance(s, (ast.Pass, ast.Raise)) for s in real):
+        return False
+    for n in walk(f.node):
+        if isinstance(n, (ast.Yield, ast.YieldFrom, ast.Await)):
+            return False
+        if isinstance(n, ast.Return) and n.value is not None and not (
+                isinstance(n.value, ast.Constant) and n.value.value is None):
+            return False
+    return True
+
+
+def _result_tests(prog, f, cls, atom):
+    """resolved callees without return value whose *result* the test atom
+    looks at: the atom is the call, compares the call, or is a local name
+    whose only definition is the call"""
+    cands = []
+    a = atom
+    if isinstance(a, ast.Call):
+        cands.append(a)
+    elif isinstance(a, ast.Compare):
+        cands += [x for x in [a.left] + list(a.comparators)
+                  if isinstance(x, ast.Call)]
+    elif isinstance(a, ast.Name):
+        ds = _defs(f, a.id)
+        if len(ds) == 1 and ds[0][2] is None and \
+                isinstance(ds[0][1], ast.Call) and a.id not in f.params:
+            cands.append(ds[0][1])
+    out = []
+    for c in cands:
+        g = prog.resolve_call(f, c, cls)
+        if g is not None and valueless(g):
+            out.append((c, g))
+    return out
+
+
+def r14_6(prog, rep, rid='R14.6'):
+    rep.rule(rid, 'PilotManager._state_sub_cb hands every thing of type pilot '
+             'of a notification to _update_pilot: the loop covers all things, '
+             'every pilot path calls _update_pilot, and the loop is not left '
+             'on the result of a callee that returns no value nor '
+             'unconditionally after an update', minimum=4)
+    pm = prog.cls(*PMGR)
+    f = prog.method(PMGR[0], PMGR[1], '_state_sub_cb')
+    rep.saw(f)
+    g = cfg_of(f)
+    smap = I.stmt_node_map(g)
+    params = [p for p in f.params if p != 'self']
+    if len(params) < 2:
+        raise AnalysisError('UNRECOGNISED-IDIOM %s: expected (topic, msg)'
+                            % f.where)
+    msg = params[1]
+    ups = [c for c in calls_in(f.node)
+           if call_name(c) == 'self._update_pilot' and smap[id(c)].loops]
+    if not ups:
+        raise AnalysisError('UNRECOGNISED-IDIOM %s: no self._update_pilot '
+                            'call inside a loop' % f.where)
+    heads = sorted({smap[id(c)].loops[-1] for c in ups})
+    if len(heads) != 1 or g.nodes[heads[0]].kind != 'for' or \
+            not isinstance(g.nodes[heads[0]].ast.target, ast.Name):
+        raise AnalysisError('UNRECOGNISED-IDIOM %s: the pilot updates are not '
+                            'in one `for <thing> in ...` loop' % f.where)
+    head = g.nodes[heads[0]]
+    tv = head.ast.target.id
+    HIST = ('a launcher advances two pilots of one resource in bulk (one '
+            "{'cmd': 'update', 'arg': [p1, p2]} message)")
+
+    # pilot-type atoms --------------------------------------------------------
+    def classify(a, var):
+        """True / False: value of the atom for a thing of type pilot"""
+        if isinstance(a, ast.Compare) and len(a.ops) == 1:
+            l, r, op = a.left, a.comparators[0], a.ops[0]
+            if isinstance(op, (ast.In, ast.NotIn)) and \
+                    isinstance(l, ast.Constant) and l.value == 'type' and \
+                    unparse(r) == var:
+                return isinstance(op, ast.In)
+            if isinstance(op, (ast.Eq, ast.NotEq)):
+                for x, y in ((l, r), (r, l)):
+                    if unparse(x) in ("%s['type']" % var,
+                                      "%s.get('type')" % var) and \
+                            isinstance(y, ast.Constant):
+                        same = y.value == 'pilot'
+                        return same if isinstance(op, ast.Eq) else not same
+        return None
+
+    # (1) the loop covers every thing of the message ---------------------------
+    def from_msg(e, depth=0):
+        """'all' | 'some' | None: e denotes all things of the message"""
+        if depth > 4:
+            return None
+        t = unparse(e)
+        if t in ("%s.get('arg')" % msg, "%s['arg']" % msg):
+            return 'all'
+        if isinstance(e, ast.Name):
+            ds = _defs(f, e.id)
+            if not ds:
+                return None
+            res = [from_msg(v, depth + 1) if i is None else None
+                   for _, v, i in ds]
+            if all(x == 'all' for x in res):
+                return 'all'
+            return 'some' if any(res) else None
+        if isinstance(e, ast.List) and len(e.elts) == 1:
+            return from_msg(e.elts[0], depth + 1)
+        if isinstance(e, ast.Call) and call_name(e) in ('ru.as_list', 'list') \
+                and len(e.args) == 1:
+            return from_msg(e.args[0], depth + 1)
+        if isinstance(e, ast.ListComp) and len(e.generators) == 1 and \
+                isinstance(e.generators[0].target, ast.Name) and \
+                unparse(e.elt) == e.generators[0].target.id:
+            gen = e.generators[0]
+            base = from_msg(gen.iter, depth + 1)
+            if base != 'all':
+                return base
+            for cond in gen.ifs:
+                atoms = cond.values if isinstance(cond, ast.BoolOp) and \
+                    isinstance(cond.op, ast.And) else [cond]
+                for a in atoms:
+                    if classify(a, gen.target.id) is not True:
+                        return 'some'
+            return 'all'
+        if isinstance(e, ast.Subscript):
+            return 'some' if from_msg(e.value, depth + 1) else None
+        return None
+
+    cover = from_msg(head.ast.iter)
+    if cover is None:
+        raise AnalysisError('UNRECOGNISED-IDIOM %s: the loop does not iterate '
+                            "the things of %s['arg']: %s"
+                            % (f.where, msg, short(head.ast.iter)))
+    rep.check(cover == 'all', rid, f, 'the loop iterates all (pilot) things '
+              'of the message', construct=head.ast.iter,
+              message='%s iterates `%s`, which is only a part of the things '
+              'of the notification (or filters out pilots): the other pilot '
+              'updates are dropped' % (f.qual, short(head.ast.iter, 60)),
+              loc=f.loc(head.ast), history=HIST + ': p2 never leaves its '
+              'state; a FAILED/CANCELED meant for p2 is lost and wait() '
+              'blocks')
+
+    # (2) + (3) paths of one iteration for a thing of type pilot ---------------
+    upids = {smap[id(c)].id for c in ups if c.args and
+             unparse(c.args[0]) == tv}
+
+    def transfer(node, edge, st):
+        if edge.label == 'exc':
+            return st
+        if node.kind == 'test' and edge.label in ('T', 'F'):
+            v = classify(node.ast, tv)
+            if v is not None and (edge.label == 'T') != v:
+                return None
+            return st
+        if node.id in upids:
+            return st + 1 if st < 2 else st
+        return st
+
+    start, stop, stop_edge = loop_slice(g, head.id)
+    ex = Exploration(g, start, 0, transfer, stop=stop, stop_edge=stop_edge)
+    rep.stat('paths_enumerated', ex.states)
+    missed = None
+    leaves = []
+    for t in ex.terminals:
+        if t.via == 'exc':
+            continue
+        path = ex.path(t)
+        back = bool(path) and path[-1].back and path[-1].dst == head.id
+        if t.state == 0 and missed is None:
+            missed = ex.literals(t)
+        if not back:
+            leaves.append((t, path))
+    rep.check(missed is None, rid, f, 'every path of an iteration for a '
+              'thing of type pilot calls self._update_pilot(%s)' % tv,
+              construct='pilot-path',
+              message='%s: for a thing of type pilot there is a path through '
+              'the loop body that does not call self._update_pilot(%s) [%s]: '
+              'that pilot notification is not applied'
+              % (f.qual, tv, ' ; '.join(missed or [])), loc=f.loc(head.ast),
+              history='a pilot notification for which [%s] holds: the facade '
+              'keeps its old state and no callback fires'
+              % ' ; '.join(missed or []))
+    bad_leave = None
+    for t, path in leaves:
+        tests = [g.nodes[e.src] for e in path
+                 if g.nodes[e.src].kind == 'test' and e.label in ('T', 'F')]
+        for tn in tests:
+            hit = _result_tests(prog, f, pm, tn.ast)
+            if hit:
+                c, callee = hit[0]
+                bad_leave = bad_leave or (
+                    tn.ast, 'on a test of the result of %s, which returns no '
+                    'value on any path (the test always has the same '
+                    'outcome)' % callee.qual)
+        # unconditionally after an update: no test between update and leave
+        seen_up = False
+        cond = False
+        for e in path:
+            n = g.nodes[e.src]
+            if n.id in upids:
+                seen_up, cond = True, False
+            elif seen_up and n.kind == 'test' and e.label in ('T', 'F'):
+                cond = True
+        if seen_up and not cond:
+            last = g.nodes[path[-1].src]
+            bad_leave = bad_leave or (
+                last.ast, 'unconditionally after the first pilot update')
+    rep.check(bad_leave is None, rid, f, 'the loop is not left early after '
+              'the first pilot', construct=bad_leave[0] if bad_leave
+              else 'leave',
+              message='%s leaves the loop over the things %s: the remaining '
+              'pilot notifications of the batch are never applied'
+              % (f.qual, bad_leave[1] if bad_leave else ''),
+              loc=f.loc(bad_leave[0]) if bad_leave else f.loc(),
+              history=HIST + ': only p1 is updated; p2 stays in its old '
+              'state (a bulk FAILED after a failed launch never reaches it '
+              'and wait() blocks)')
+    # (4) contradiction rule on the whole callback
+    contra = []
+    for n in g.nodes:
+        if n.kind == 'test':
+            for c, callee in _result_tests(prog, f, pm, n.ast):
+                contra.append((n.ast, callee))
+    rep.check(not contra, rid, f, 'no branch of the callback tests the result '
+              'of a callee that returns no value', construct=contra[0][0]
+              if contra else 'result-tests',
+              message='%s branches on `%s`, but %s never returns a value: '
+              'the branch is decided once and for all, whatever the callee '
+              'did' % (f.qual, short(contra[0][0], 60) if contra else '',
+                       contra[0][1].qual if contra else ''),
+              loc=f.loc(contra[0][0]) if contra else f.loc(), history=HIST)
+
+
+def sweep_result_tests(prog, rep, rid='R14.6'):
+    """thorough tier: the contradiction pattern anywhere in the package"""
+    n = 0
+    funcs = []
+    for m in prog.modules.values():
+        funcs += list(m.funcs.values())
+        for c in m.classes.values():
+            funcs += list(c.methods.values())
+    for f in funcs:
+        try:
+            g = cfg_of(f)
+        except Exception:
+            continue
+        for node in g.nodes:
+            if node.kind != 'test':
+                continue
+            for c, callee in _result_tests(prog, f, f.cls, node.ast):
+                if isinstance(c.func, ast.Attribute) and \
+                        isinstance(c.func.value, ast.Name) and \
+                        c.func.value.id != 'self':
+                    continue
+                n += 1
+                rep.info(rid, f, 'test on the result of %s which has no '
+                         '`return <value>`: %s' % (callee.qual,
+                                                   short(node.ast, 60)),
+                         f.loc(node.ast))
+    rep.stat('sweep_result_tests', n)
+
 # ------------------------------------------------------------------------------
 #
 def run(prog, rep, tier):
@@ -1401,7 +1669,8 @@ def run(prog, rep, tier):
         'different one before the assigning method returns; finalize maps '
         'runtime expiry to DONE, a cancel request to CANCELED and no cause '
         'to FAILED in both killme.signal and the final update; the signal '
-        'file name and FAILED default agree with bootstrap_0.sh.')
+        'file name and FAILED default agree with bootstrap_0.sh; the pilot '
+        'manager applies every pilot notification of a bulk message.')
     rep.undecided = ('what bootstrap_0.sh does with the state beyond the '
         'file-name contract; delivery order/timing of notifications; '
         'exceptions raised by _pilot_state_progress on contradictory finals; '
@@ -1422,7 +1691,9 @@ def run(prog, rep, tier):
     r14_2(prog, rep, tier=tier)
     defs = r14_3(prog, rep)
     r14_4_5(prog, rep, defs)
+    r14_6(prog, rep)
     if tier == 'thorough':
+        sweep_result_tests(prog, rep)
         # sweep: any other class of the package that keeps a _final_cause
         n = 0
         for c in prog.all_classes():
@@ -1445,13 +1716,8 @@ _P = 'pilot_manager.py'
 _S = 'states.py'
 _F = 'pilot.py'
 
-# the edit of /verif/proposed_fixes/F04.diff
-F04_FIX = (_A, "        self._log.info('stop agent')\n        self._final_cause = 'cancel'\n",
-               "        self._log.info('stop agent')\n\n"
-               "        # do not overwrite a cause which was recorded before `stop()` got\n"
-               "        # called (`_check_lifetime` sets 'timeout' and then stops the agent)\n"
-               "        if self._final_cause is None:\n"
-               "            self._final_cause = 'cancel'\n\n")
+# F04 (proposed_fixes/F04.diff) is committed in /repo; the variants below are
+# written against the repaired stop()
 
 MUTATIONS = [
     dict(name='R14.1 ACTIVE_PENDING sorted before LAUNCHING', rules=('R14.1',), edits=[
@@ -1491,44 +1757,44 @@ MUTATIONS = [
         (_P, "            if target in [rps.CANCELED, rps.FAILED]:\n                # don't replay intermediate states\n                passed = passed[-1:]\n",
              "            if target in [rps.CANCELED, rps.FAILED]:\n                # don't replay intermediate states\n                passed = [pilot_dict['state']]\n")]),
     dict(name='R14.2 state callback updates the pilot directly', rules=('R14.2',), edits=[
-        (_P, "                if not self._update_pilot(thing, publish=False):\n                    return False",
-             "                self._pilots[thing['uid']]._update(thing)")]),
+        (_P, "                self._update_pilot(thing, publish=False)\n",
+             "                self._pilots[thing['uid']]._update(thing)\n                self._update_pilot(thing, publish=False)\n")]),
     dict(name='R14.2 second writer of Pilot._state', rules=('R14.2',), edits=[
         (_F, "        if state == rps.FAILED and self._exit_on_error:",
              "        self._state = state\n        if state == rps.FAILED and self._exit_on_error:")]),
+    dict(name='R14.3 F04 reverted: stop() always records cancel', rules=('R14.3',), edits=[
+        (_A, "        if self._final_cause is None:\n            self._final_cause = 'cancel'\n", "        self._final_cause = 'cancel'\n")]),
     dict(name='R14.3 stop() records its own cause', rules=('R14.3',), edits=[
-        (_A, "        self._log.info('stop agent')\n        self._final_cause = 'cancel'\n",
-             "        self._log.info('stop agent')\n        self._final_cause = 'stop'\n")],
+        (_A, "        if self._final_cause is None:\n            self._final_cause = 'cancel'\n", "        self._final_cause = 'stop'\n")],
          note='the cancel request is then reported FAILED (unknown cause)'),
-    dict(name='R14.3 new failure cause lost in the unfixed stop()', rules=('R14.3',), edits=[
+    dict(name='R14.3 stop() guard inverted', rules=('R14.3',), edits=[
+        (_A, "        if self._final_cause is None:\n            self._final_cause = 'cancel'\n",
+             "        if self._final_cause is not None:\n            self._final_cause = 'cancel'\n")]),
+    dict(name='R14.3 new failure cause lost in an abort helper', rules=('R14.3',), edits=[
         (_A, "            self._log.error('service %s failed: %s', uid, error)\n            return True\n",
-             "            self._log.error('service %s failed: %s', uid, error)\n            self._final_cause = 'service_failed'\n            self.stop()\n            return True\n")]),
-    dict(name='R14.3 fixed stop(), cancel handler resets the cause through a helper', rules=('R14.3',), edits=[
-        F04_FIX,
+             "            self._log.error('service %s failed: %s', uid, error)\n            self._final_cause = 'service_failed'\n            self._abort()\n            return True\n"),
+        (_A, "    def _ctrl_cancel_pilots(self, msg):\n",
+             "    def _abort(self):\n        self._final_cause = 'cancel'\n        self.stop()\n\n    def _ctrl_cancel_pilots(self, msg):\n")]),
+    dict(name='R14.3 cancel handler resets the cause through a helper', rules=('R14.3',), edits=[
         (_A, "        self.publish(rpc.CONTROL_PUBSUB, {'cmd' : 'terminate',\n                                          'arg' : None})\n        self.stop()\n",
              "        self.publish(rpc.CONTROL_PUBSUB, {'cmd' : 'terminate',\n                                          'arg' : None})\n        self._reset_cause()\n        self.stop()\n"),
         (_A, "    def _ctrl_cancel_pilots(self, msg):\n",
              "    def _reset_cause(self):\n        self._final_cause = 'timeout'\n\n    def _ctrl_cancel_pilots(self, msg):\n")]),
-    dict(name='R14.3 fix applied with inverted guard, cause parameter', rules=('R14.3',), edits=[
-        (_A, "    def stop(self):\n\n        self._log.info('stop agent')\n        self._final_cause = 'cancel'\n",
-             "    def stop(self, cause=None):\n\n        self._log.info('stop agent')\n        if not cause:\n            self._final_cause = 'failed'\n")]),
+    dict(name='R14.3 stop() takes a cause, lifetime check still uses the default', rules=('R14.3',), edits=[
+        (_A, "    def stop(self):\n\n        self._log.info('stop agent')\n", "    def stop(self, cause='cancel'):\n\n        self._log.info('stop agent')\n"),
+        (_A, "        if self._final_cause is None:\n            self._final_cause = 'cancel'\n", "        self._final_cause = cause\n")]),
     dict(name='R14.4 timeout mapped to CANCELED', rules=('R14.4',), edits=[
-        F04_FIX,
         (_A, "        if   self._final_cause == 'timeout'  : state = rps.DONE",
              "        if   self._final_cause == 'timeout'  : state = rps.CANCELED")]),
     dict(name='R14.4 cause literal renamed at the definition only', rules=('R14.4',), edits=[
-        F04_FIX,
         (_A, "                self._final_cause = 'timeout'\n", "                self._final_cause = 'runtime'\n")]),
     dict(name='R14.4 default branch reports CANCELED', rules=('R14.4',), edits=[
-        F04_FIX,
         (_A, "        else                                 : state = rps.FAILED",
              "        else                                 : state = rps.CANCELED")]),
     dict(name='R14.4 final update carries a fixed state', rules=('R14.4',), edits=[
-        F04_FIX,
         (_A, "                 'logfile': log,\n                 'state'  : state}",
              "                 'logfile': log,\n                 'state'  : rps.CANCELED}")]),
     dict(name='R14.4 cancel request mapped to FAILED', rules=('R14.4',), edits=[
-        F04_FIX,
         (_A, "        elif self._final_cause == 'cancel'   : state = rps.CANCELED",
              "        elif self._final_cause == 'cancel'   : state = rps.FAILED")]),
     dict(name='R14.5 agent writes a differently named file', rules=('R14.5',), edits=[
@@ -1542,29 +1808,24 @@ MUTATIONS = [
 ]
 
 SILENT = [
-    dict(name='F04 fix: stop keeps an earlier cause (is None)', edits=[F04_FIX]),
-    dict(name='F04 fix variant: stop keeps an earlier cause (truthiness)', edits=[
-        (_A, "        self._log.info('stop agent')\n        self._final_cause = 'cancel'\n",
-             "        self._log.info('stop agent')\n        if not self._final_cause:\n            self._final_cause = 'cancel'\n")]),
-    dict(name='F04 fix variant: cause passed as parameter', edits=[
-        (_A, "    def stop(self):\n\n        self._log.info('stop agent')\n        self._final_cause = 'cancel'\n",
-             "    def stop(self, cause='cancel'):\n\n        self._log.info('stop agent')\n        self._final_cause = cause\n"),
+    dict(name='stop keeps an earlier cause (truthiness test)', edits=[
+        (_A, "        if self._final_cause is None:\n            self._final_cause = 'cancel'\n",
+             "        if not self._final_cause:\n            self._final_cause = 'cancel'\n")]),
+    dict(name='cause passed to stop() as parameter', edits=[
+        (_A, "    def stop(self):\n\n        self._log.info('stop agent')\n", "    def stop(self, cause='cancel'):\n\n        self._log.info('stop agent')\n"),
+        (_A, "        if self._final_cause is None:\n            self._final_cause = 'cancel'\n", "        self._final_cause = cause\n"),
         (_A, "                self._final_cause = 'timeout'\n                self.stop()\n",
              "                self._final_cause = 'timeout'\n                self.stop(cause='timeout')\n")]),
     dict(name='stop() records another cause with the same final state', edits=[
-        F04_FIX,
         (_A, "        if self._final_cause is None:\n            self._final_cause = 'cancel'\n", "        if self._final_cause is None:\n            self._final_cause = 'sys.exit'\n")]),
     dict(name='cause table as dict lookup', edits=[
-        F04_FIX,
         (_A, "        if   self._final_cause == 'timeout'  : state = rps.DONE\n        elif self._final_cause == 'cancel'   : state = rps.CANCELED\n        elif self._final_cause == 'sys.exit' : state = rps.CANCELED\n        else                                 : state = rps.FAILED\n",
              "        state = {'timeout': rps.DONE,\n                 'cancel' : rps.CANCELED}.get(self._final_cause, rps.FAILED)\n")]),
     dict(name='cause literals renamed consistently, local alias in finalize', edits=[
-        F04_FIX,
         (_A, "                self._final_cause = 'timeout'\n", "                self._final_cause = 'runtime'\n"),
         (_A, "        if   self._final_cause == 'timeout'  : state = rps.DONE\n        elif self._final_cause == 'cancel'   : state = rps.CANCELED\n        elif self._final_cause == 'sys.exit' : state = rps.CANCELED\n",
              "        cause = self._final_cause\n        if   cause == 'runtime'  : state = rps.DONE\n        elif cause in ['cancel', 'sys.exit']: state = rps.CANCELED\n")]),
     dict(name='signal file written with an f-string, no ./ prefix', edits=[
-        F04_FIX,
         (_A, "        with ru.ru_open('./killme.signal', 'w') as fout:\n            fout.write('%s\\n' % state)\n",
              "        with ru.ru_open('killme.signal', 'w') as fout:\n            fout.write(f'{state}\\n')\n")]),
     dict(name='unknown-pilot guard as positive nesting', edits=[
